@@ -73,3 +73,37 @@ pub async fn point(name: &str) {
         gate.release.notified().await;
     }
 }
+
+/// What a sender does with one delivery of its unsettled map on link resumption (AMQP 1.0
+/// section 2.6.13), as decided by `link::resumption::resume_delivery`.
+///
+/// `local` is the state the sender has recorded for the delivery, `remote` the entry of the
+/// receiver's attach (`None`: no entry, `Some(None)`: entry with a null value). Returns the
+/// kind of decision (`"resend"`, `"resume"`, `"abort"`, `"restate"`, `"settle"`), the number of
+/// payload bytes that would be transmitted and, for `"settle"`, what the pending send is
+/// resolved with (for `"restate"`, the state that is restated).
+pub fn resume_decision(
+    payload: bytes::Bytes,
+    local: Option<fe2o3_amqp_types::messaging::DeliveryState>,
+    remote: Option<Option<fe2o3_amqp_types::messaging::DeliveryState>>,
+) -> (
+    &'static str,
+    usize,
+    Option<Option<fe2o3_amqp_types::messaging::DeliveryState>>,
+) {
+    use crate::link::{delivery::UnsettledMessage, resumption::{resume_delivery, ResumingDelivery}};
+
+    let (tx, mut rx) = tokio::sync::oneshot::channel();
+    let unsettled = UnsettledMessage::new(payload, local, 0, tx);
+    match resume_delivery(unsettled, remote) {
+        None => ("settle", 0, rx.try_recv().ok()),
+        Some(ResumingDelivery::Abort { .. }) => ("abort", 0, None),
+        Some(ResumingDelivery::Resend(msg)) => ("resend", msg.payload.len(), None),
+        Some(ResumingDelivery::Resume(msg)) => ("resume", msg.payload.len(), None),
+        Some(ResumingDelivery::RestateOutcome {
+            payload,
+            local_state,
+            ..
+        }) => ("restate", payload.len(), Some(Some(local_state))),
+    }
+}
